@@ -38,7 +38,11 @@ func Harness_C08_stop_times() {
 	hdr := []string{"trip_id", "arrival_time", "departure_time", "stop_id", "stop_sequence", "stop_headsign"}
 	var rows [][]string
 	for i := 0; i < R; i++ {
-		rows = append(rows, []string{vr.OneOf(vr.T("st.r", i, ".trip"), "t1", "t2"), "08:00:00", "08:00:00", vr.OneOf(vr.T("st.r", i, ".stop"), "s1", "s2"),
+		tm := "08:00:00"
+		if vr.Param("UNTIMED", 0) == 1 {
+			tm = vr.OneOf(vr.T("st.r", i, ".time"), "08:00:00", "") // a row giving neither time is legal and is dropped
+		}
+		rows = append(rows, []string{vr.OneOf(vr.T("st.r", i, ".trip"), "t1", "t2"), tm, tm, vr.OneOf(vr.T("st.r", i, ".stop"), "s1", "s2"),
 			vr.Chars(vr.T("st.r", i, ".seq"), vr.Param("SEQW", 1), "digit"), vr.Str(vr.T("st.r", i, ".headsign"))})
 	}
 	for i := 0; i < R; i++ {
@@ -59,7 +63,13 @@ func Harness_C08_stop_times() {
 			vr.Assert("C08.stoptimes.sorted", sts[q].StopSequence < sts[q+1].StopSequence)
 		}
 	}
-	vr.Assert("C08.stoptimes.count", total == R)
+	timed := 0
+	for i := range rows {
+		if rows[i][1] != "" {
+			timed++
+		}
+	}
+	vr.Assert("C08.stoptimes.count", total == timed)
 	for _, p := range hPermutations(rows) {
 		files["stop_times.txt"] = vr.File{Name: "stop_times.txt", Header: hdr, Rows: p}
 		r := hParse(files, ParseStaticOptions{})
